@@ -207,6 +207,9 @@ func runScenario(sc Scenario, dir string) ([]verif.Event, *RunResult) {
 	if sc.Mode == "bytes" || sc.Mode == "flow" {
 		r.bigFrameStep()
 	}
+	if sc.Mode == "flow" {
+		r.pauseRaceStep()
+	}
 	if sc.Vanish {
 		r.vanishStep()
 	}
@@ -513,6 +516,44 @@ func (r *Run) ledger(evs []verif.Event, drained bool) {
 		idOfKey[key], keyOfID[tid], tsOfID[tid] = id, key, ts
 	}
 	_ = drained
+	// C13, client-visible: what /stats says about a consumer is bounded by what that consumer did -- it was not requeued more
+	// often than it sent REQ, did not finish more than it sent FIN, and was sent at least what it received
+	{
+		sentReq, sentFin, recvd := map[string]int64{}, map[string]int64{}, map[string]int64{}
+		n13 := 0
+		for _, e := range evs {
+			switch e.Ev {
+			case "HCmd":
+				switch hlib.KVStr(e, "cmd") {
+				case "REQ":
+					sentReq[hlib.KVStr(e, "conn")]++
+				case "FIN":
+					sentFin[hlib.KVStr(e, "conn")]++
+				}
+			case "HRecv":
+				recvd[hlib.KVStr(e, "conn")]++
+			case "HStatsK":
+				cn := hlib.KVStr(e, "conn")
+				if _, ours := recvd[cn]; !ours && sentReq[cn] == 0 && sentFin[cn] == 0 {
+					continue
+				}
+				if n13 < 4 {
+					if q := hlib.KVInt(e, "req"); q > sentReq[cn] {
+						n13++
+						r.failf("[C13] /stats reports requeue_count=%d for consumer %s, which has sent %d REQ so far", q, cn, sentReq[cn])
+					}
+					if f := hlib.KVInt(e, "fin"); f > sentFin[cn] {
+						n13++
+						r.failf("[C13] /stats reports finish_count=%d for consumer %s, which has sent %d FIN so far", f, cn, sentFin[cn])
+					}
+					if m := hlib.KVInt(e, "msgs"); m < recvd[cn] {
+						n13++
+						r.failf("[C13] /stats reports message_count=%d for consumer %s, which has received %d messages so far", m, cn, recvd[cn])
+					}
+				}
+			}
+		}
+	}
 	// C03, client-visible: POST /topic/pause is answered only after the topic's pump has taken notice, so whatever is published
 	// from then on stays in the topic until somebody asks for an unpause -- no consumer can receive it in between, whatever
 	// kind of publish it was and wherever the topic had to put it
@@ -941,6 +982,66 @@ func (r *Run) mixedTimeoutStep() {
 	}
 	defer short.close()
 	time.Sleep(2500 * time.Millisecond) // the short one's deadline (1 s) passes well within this
+}
+
+// pauseRaceStep: a consumer waits (RDY 1, nothing queued); its channel is paused and a message is published at the same
+// moment, forty times over.  Whichever the consumer's pump sees first, afterwards /stats says about the consumer what the
+// consumer did (C13: the snapshot that follows, and the ledger's bounds) and nothing is lost (C01).
+func (r *Run) pauseRaceStep() {
+	t := r.sc.Topics[0]
+	r.httpAdmin("/topic/unpause?topic=" + t)
+	r.httpAdmin("/channel/create?topic=" + t + "&channel=race")
+	cn, err := dial(r.nd.TCP, r.newConnName("race"))
+	if err != nil {
+		return
+	}
+	defer cn.close()
+	if _, err := cn.identify(map[string]interface{}{"output_buffer_timeout": 25}); err != nil {
+		return
+	}
+	if err := cn.sub(t, "race"); err != nil {
+		return
+	}
+	cn.cmd("RDY", "", "1")
+	for round := 0; round < 40; round++ {
+		key := fmt.Sprintf("p93-%05d", round)
+		body := []byte(key + "|race")
+		rec := r.record(key, t, body, 0, "HTTP")
+		var wg sync.WaitGroup
+		var start int32
+		wg.Add(2)
+		go func() {
+			defer wg.Done()
+			for atomic.LoadInt32(&start) == 0 {
+			}
+			r.httpAdmin("/channel/pause?topic=" + t + "&channel=race")
+		}()
+		go func() {
+			defer wg.Done()
+			for atomic.LoadInt32(&start) == 0 {
+			}
+			hlib.Emit("HPub", "key", key, "via", "HTTP", "t", t, "defer", 0, "now", time.Now().UnixNano())
+			if st, _, err := r.nd.post("/pub?topic="+t, body); err == nil && st == 200 {
+				r.markAcked([]*pubRec{rec})
+			}
+		}()
+		time.Sleep(time.Duration(r.rng.Intn(300)) * time.Microsecond)
+		atomic.StoreInt32(&start, 1)
+		wg.Wait()
+		time.Sleep(3 * time.Millisecond)
+		r.httpAdmin("/channel/unpause?topic=" + t + "&channel=race")
+		deadline := time.Now().Add(3 * time.Second)
+		for time.Now().Before(deadline) {
+			if f, ok := cn.next(20 * time.Millisecond); ok && f.Type == 2 {
+				cn.cmd("FIN", f.ID, "")
+				if keyOf(f.Body) == key {
+					break
+				}
+			}
+		}
+	}
+	time.Sleep(50 * time.Millisecond)
+	r.quiescentSnapshot("pause-race")
 }
 
 // pauseBacklogStep: a topic is paused while its pump is busy with a backlog. Once POST /topic/pause has been
